@@ -80,6 +80,10 @@ const Prelude = `
 (assert (forall ((a Int) (b Int)) (! (=> (and (>= a 0) (>= b 0)) (and (>= (band a b) 0) (<= (band a b) a) (<= (band a b) b))) :pattern ((band a b)))))
 (assert (forall ((a Int) (b Int)) (! (=> (and (>= a 0) (>= b 0)) (and (>= (bor a b) a) (>= (bor a b) b) (<= (bor a b) (+ a b)))) :pattern ((bor a b)))))
 (assert (forall ((a Int) (b Int)) (! (=> (and (>= a 0) (>= b 0)) (and (>= (bxor a b) 0) (<= (bxor a b) (+ a b)))) :pattern ((bxor a b)))))
+(assert (forall ((a Int) (b Int)) (! (=> (and (>= a 0) (>= b 0)) (= (= (bxor a b) 0) (= a b))) :pattern ((bxor a b)))))
+(assert (forall ((a Int) (b Int)) (! (=> (and (>= a 0) (>= b 0)) (= (= (bor a b) 0) (and (= a 0) (= b 0)))) :pattern ((bor a b)))))
+(assert (forall ((a Int) (b Int)) (! (=> (and (<= 0 a) (<= a 255) (<= 0 b) (<= b 255)) (and (<= (bor a b) 255) (<= (bxor a b) 255))) :pattern ((bor a b)) :pattern ((bxor a b)))))
+(assert (forall ((a Int) (b Int)) (! (=> (or (= a (- 1)) (= b (- 1))) (= (bor a b) (- 1))) :pattern ((bor a b)))))
 `
 
 // Obligation is one proof goal.
